@@ -99,6 +99,7 @@ pub trait NumDisplay: Sized {}
 impl NumDisplay for i8 {} impl NumDisplay for i16 {} impl NumDisplay for i32 {} impl NumDisplay for i64 {}
 impl NumDisplay for u8 {} impl NumDisplay for u16 {} impl NumDisplay for u32 {} impl NumDisplay for u64 {}
 impl NumDisplay for f32 {} impl NumDisplay for f64 {}
+impl NumDisplay for i128 {} impl NumDisplay for u128 {}
 pub uninterp spec fn disp<T>(v: T) -> BSeq;
 pub open spec fn plain_byte(b: u8) -> bool {
     b != 0x3c && b != 0x3e && b != 0x26 && b != 0x22 && b != 0x27 && b != 0x20 && b != 0x09 && b != 0x0a && b != 0x0d
@@ -176,6 +177,10 @@ pub trait Serializer: Sized {
     fn serialize_u32(self, v: u32) -> Result<Self::Ok, Self::Error> requires self.ok() { unimplemented!() }
     #[verifier::external_body]
     fn serialize_u64(self, v: u64) -> Result<Self::Ok, Self::Error> requires self.ok() { unimplemented!() }
+    #[verifier::external_body]
+    fn serialize_i128(self, v: i128) -> Result<Self::Ok, Self::Error> requires self.ok() { unimplemented!() }
+    #[verifier::external_body]
+    fn serialize_u128(self, v: u128) -> Result<Self::Ok, Self::Error> requires self.ok() { unimplemented!() }
     #[verifier::external_body]
     fn serialize_f32(self, v: f32) -> Result<Self::Ok, Self::Error> requires self.ok() { unimplemented!() }
     #[verifier::external_body]
@@ -702,15 +707,221 @@ impl<'w, 'i, W: Write> ContentSerializer<'w, 'i, W> {
     pub writer: W,
 }
 //@end
-/// QNameSerializer's methods are not under contract (model-level implementation: every method unspecified); whatever
-/// string it yields as a map key is validated by Struct::write_field before it becomes a name
+/// the serializer of map keys (real text of src/se/key.rs, generic in the writer: it is handed back by value). C13 "carries the data
+/// unchanged": the key string handed to `Struct::write_field` (which validates it) is exactly the text of the key value
+impl<W: Write> QNameSerializer<W> {
+//@extract key::QNameSerializer::write_str | src/se/key.rs :: impl<W: Write> QNameSerializer<W> :: fn write_str | serves=C13 features=serialize
+    fn write_str(&mut self, value: &str) -> (r: Result<(), SeError>)
+            ensures r is Ok ==> final(self).writer.out() == old(self).writer.out() + value.spec_bytes(),
+        {
+        Ok(self.writer.write_str(value)?)
+    }
+//@end
+}
 impl<W: Write> Serializer for QNameSerializer<W> {
     type Ok = W;
     type Error = SeError;
     type SerializeSeq = ();
     type SerializeStruct = ();
     type SerializeMap = ();
-    open spec fn ok(&self) -> bool { true }
+    /// observation of the hand-over in `Map::make_key`: a key is serialized into an EMPTY string
+    open spec fn ok(&self) -> bool { self.writer.out().len() == 0 }
+//@extract key::QNameSerializer::serialize_bool | src/se/key.rs :: impl<W: Write> Serializer for QNameSerializer<W> :: invoke write_primitive :: fn serialize_bool | serves=C13 features=serialize macro_files=src/se/mod.rs
+        fn serialize_bool(self, value: bool) -> (r: Result<Self::Ok, Self::Error>)
+            ensures // C13: the key is the text of the value, appended to what the writer held
+                r matches Ok(w) ==> w.out() == self.writer.out() + bool_text(value),
+        { let mut self__ = self;
+            self__.write_str(if value { "true" } else { "false" })?;
+            Ok(self__.writer)
+        }
+//@end
+//@extract key::QNameSerializer::serialize_i8 | src/se/key.rs :: impl<W: Write> Serializer for QNameSerializer<W> :: invoke write_primitive :: invoke write_primitive :: fn serialize_i8 | serves=C13 features=serialize macro_files=src/se/mod.rs
+//@rewrite &value.to_string() ==> disp_(value)
+        fn serialize_i8(self, value: i8) -> (r: Result<Self::Ok, Self::Error>)
+            ensures r matches Ok(w) ==> w.out() == self.writer.out() + disp(value),
+        { let mut self__ = self;
+            self__.write_str(disp_(value))?;
+            Ok(self__.writer)
+        }
+//@end
+//@extract key::QNameSerializer::serialize_i16 | src/se/key.rs :: impl<W: Write> Serializer for QNameSerializer<W> :: invoke write_primitive :: invoke write_primitive :: fn serialize_i16 | serves=C13 features=serialize macro_files=src/se/mod.rs
+//@rewrite &value.to_string() ==> disp_(value)
+        fn serialize_i16(self, value: i16) -> (r: Result<Self::Ok, Self::Error>)
+            ensures r matches Ok(w) ==> w.out() == self.writer.out() + disp(value),
+        { let mut self__ = self;
+            self__.write_str(disp_(value))?;
+            Ok(self__.writer)
+        }
+//@end
+//@extract key::QNameSerializer::serialize_i32 | src/se/key.rs :: impl<W: Write> Serializer for QNameSerializer<W> :: invoke write_primitive :: invoke write_primitive :: fn serialize_i32 | serves=C13 features=serialize macro_files=src/se/mod.rs
+//@rewrite &value.to_string() ==> disp_(value)
+        fn serialize_i32(self, value: i32) -> (r: Result<Self::Ok, Self::Error>)
+            ensures r matches Ok(w) ==> w.out() == self.writer.out() + disp(value),
+        { let mut self__ = self;
+            self__.write_str(disp_(value))?;
+            Ok(self__.writer)
+        }
+//@end
+//@extract key::QNameSerializer::serialize_i64 | src/se/key.rs :: impl<W: Write> Serializer for QNameSerializer<W> :: invoke write_primitive :: invoke write_primitive :: fn serialize_i64 | serves=C13 features=serialize macro_files=src/se/mod.rs
+//@rewrite &value.to_string() ==> disp_(value)
+        fn serialize_i64(self, value: i64) -> (r: Result<Self::Ok, Self::Error>)
+            ensures r matches Ok(w) ==> w.out() == self.writer.out() + disp(value),
+        { let mut self__ = self;
+            self__.write_str(disp_(value))?;
+            Ok(self__.writer)
+        }
+//@end
+//@extract key::QNameSerializer::serialize_i128 | src/se/key.rs :: impl<W: Write> Serializer for QNameSerializer<W> :: invoke write_primitive :: invoke serde_if_integer128 :: invoke write_primitive :: fn serialize_i128 | serves=C13 features=serialize macro_files=src/se/mod.rs
+//@rewrite &value.to_string() ==> disp_(value)
+        fn serialize_i128(self, value: i128) -> (r: Result<Self::Ok, Self::Error>)
+            ensures r matches Ok(w) ==> w.out() == self.writer.out() + disp(value),
+        { let mut self__ = self;
+            self__.write_str(disp_(value))?;
+            Ok(self__.writer)
+        }
+//@end
+//@extract key::QNameSerializer::serialize_u8 | src/se/key.rs :: impl<W: Write> Serializer for QNameSerializer<W> :: invoke write_primitive :: invoke write_primitive :: fn serialize_u8 | serves=C13 features=serialize macro_files=src/se/mod.rs
+//@rewrite &value.to_string() ==> disp_(value)
+        fn serialize_u8(self, value: u8) -> (r: Result<Self::Ok, Self::Error>)
+            ensures r matches Ok(w) ==> w.out() == self.writer.out() + disp(value),
+        { let mut self__ = self;
+            self__.write_str(disp_(value))?;
+            Ok(self__.writer)
+        }
+//@end
+//@extract key::QNameSerializer::serialize_u16 | src/se/key.rs :: impl<W: Write> Serializer for QNameSerializer<W> :: invoke write_primitive :: invoke write_primitive :: fn serialize_u16 | serves=C13 features=serialize macro_files=src/se/mod.rs
+//@rewrite &value.to_string() ==> disp_(value)
+        fn serialize_u16(self, value: u16) -> (r: Result<Self::Ok, Self::Error>)
+            ensures r matches Ok(w) ==> w.out() == self.writer.out() + disp(value),
+        { let mut self__ = self;
+            self__.write_str(disp_(value))?;
+            Ok(self__.writer)
+        }
+//@end
+//@extract key::QNameSerializer::serialize_u32 | src/se/key.rs :: impl<W: Write> Serializer for QNameSerializer<W> :: invoke write_primitive :: invoke write_primitive :: fn serialize_u32 | serves=C13 features=serialize macro_files=src/se/mod.rs
+//@rewrite &value.to_string() ==> disp_(value)
+        fn serialize_u32(self, value: u32) -> (r: Result<Self::Ok, Self::Error>)
+            ensures r matches Ok(w) ==> w.out() == self.writer.out() + disp(value),
+        { let mut self__ = self;
+            self__.write_str(disp_(value))?;
+            Ok(self__.writer)
+        }
+//@end
+//@extract key::QNameSerializer::serialize_u64 | src/se/key.rs :: impl<W: Write> Serializer for QNameSerializer<W> :: invoke write_primitive :: invoke write_primitive :: fn serialize_u64 | serves=C13 features=serialize macro_files=src/se/mod.rs
+//@rewrite &value.to_string() ==> disp_(value)
+        fn serialize_u64(self, value: u64) -> (r: Result<Self::Ok, Self::Error>)
+            ensures r matches Ok(w) ==> w.out() == self.writer.out() + disp(value),
+        { let mut self__ = self;
+            self__.write_str(disp_(value))?;
+            Ok(self__.writer)
+        }
+//@end
+//@extract key::QNameSerializer::serialize_u128 | src/se/key.rs :: impl<W: Write> Serializer for QNameSerializer<W> :: invoke write_primitive :: invoke serde_if_integer128 :: invoke write_primitive :: fn serialize_u128 | serves=C13 features=serialize macro_files=src/se/mod.rs
+//@rewrite &value.to_string() ==> disp_(value)
+        fn serialize_u128(self, value: u128) -> (r: Result<Self::Ok, Self::Error>)
+            ensures r matches Ok(w) ==> w.out() == self.writer.out() + disp(value),
+        { let mut self__ = self;
+            self__.write_str(disp_(value))?;
+            Ok(self__.writer)
+        }
+//@end
+//@extract key::QNameSerializer::serialize_f32 | src/se/key.rs :: impl<W: Write> Serializer for QNameSerializer<W> :: invoke write_primitive :: invoke write_primitive :: fn serialize_f32 | serves=C13 features=serialize macro_files=src/se/mod.rs
+//@rewrite &value.to_string() ==> disp_(value)
+        fn serialize_f32(self, value: f32) -> (r: Result<Self::Ok, Self::Error>)
+            ensures r matches Ok(w) ==> w.out() == self.writer.out() + disp(value),
+        { let mut self__ = self;
+            self__.write_str(disp_(value))?;
+            Ok(self__.writer)
+        }
+//@end
+//@extract key::QNameSerializer::serialize_f64 | src/se/key.rs :: impl<W: Write> Serializer for QNameSerializer<W> :: invoke write_primitive :: invoke write_primitive :: fn serialize_f64 | serves=C13 features=serialize macro_files=src/se/mod.rs
+//@rewrite &value.to_string() ==> disp_(value)
+        fn serialize_f64(self, value: f64) -> (r: Result<Self::Ok, Self::Error>)
+            ensures r matches Ok(w) ==> w.out() == self.writer.out() + disp(value),
+        { let mut self__ = self;
+            self__.write_str(disp_(value))?;
+            Ok(self__.writer)
+        }
+//@end
+//@extract key::QNameSerializer::serialize_char | src/se/key.rs :: impl<W: Write> Serializer for QNameSerializer<W> :: invoke write_primitive :: fn serialize_char | serves=C13 features=serialize macro_files=src/se/mod.rs
+//@rewrite &value.to_string() ==> disp_char_(value)
+        fn serialize_char(self, value: char) -> (r: Result<Self::Ok, Self::Error>)
+            ensures r matches Ok(w) ==> w.out() == self.writer.out() + char_bytes(value),
+        {
+            self.serialize_str(disp_char_(value))
+        }
+//@end
+//@extract key::QNameSerializer::serialize_bytes | src/se/key.rs :: impl<W: Write> Serializer for QNameSerializer<W> :: invoke write_primitive :: fn serialize_bytes | serves=C13 features=serialize macro_files=src/se/mod.rs n15=1
+        fn serialize_bytes(self, _value: &[u8]) -> (r: Result<Self::Ok, Self::Error>)
+            ensures r is Err,
+        {
+            //TODO: customization point - allow user to decide how to encode bytes
+            Err(Self::Error::Unsupported(
+                errmsg_(),
+            ))
+        }
+//@end
+//@extract key::QNameSerializer::serialize_none | src/se/key.rs :: impl<W: Write> Serializer for QNameSerializer<W> :: invoke write_primitive :: fn serialize_none | serves=C13 features=serialize macro_files=src/se/mod.rs
+        fn serialize_none(self) -> (r: Result<Self::Ok, Self::Error>)
+            ensures r matches Ok(w) && w.out() == self.writer.out(),
+        {
+            Ok(self.writer)
+        }
+//@end
+//@extract key::QNameSerializer::serialize_unit_variant | src/se/key.rs :: impl<W: Write> Serializer for QNameSerializer<W> :: invoke write_primitive :: fn serialize_unit_variant | serves=C13 features=serialize macro_files=src/se/mod.rs
+        fn serialize_unit_variant(
+            self,
+            _name: &'static str,
+            _variant_index: u32,
+            variant: &'static str,
+        ) -> (r: Result<Self::Ok, Self::Error>)
+            ensures // C13: a unit variant used as a key is its name, unchanged
+            r matches Ok(w) ==> w.out() == self.writer.out() + variant.spec_bytes(),
+        {
+            self.serialize_str(variant)
+        }
+//@end
+//@extract key::QNameSerializer::serialize_str | src/se/key.rs :: impl<W: Write> Serializer for QNameSerializer<W> :: fn serialize_str | serves=C13 features=serialize
+    fn serialize_str(self, value: &str) -> (r: Result<Self::Ok, Self::Error>)
+            ensures // C13: a string key reaches the validation of `Struct::write_field` unchanged
+            r matches Ok(w) ==> w.out() == self.writer.out() + value.spec_bytes(),
+        { let mut self__ = self;
+        self__.write_str(value)?;
+        Ok(self__.writer)
+    }
+//@end
+//@extract key::QNameSerializer::serialize_unit | src/se/key.rs :: impl<W: Write> Serializer for QNameSerializer<W> :: fn serialize_unit | serves=C13 features=serialize n15=1
+    /// Because unit type can be represented only by empty string which is not
+    /// a valid XML name, serialization of unit returns `Err(Unsupported)`
+    fn serialize_unit(self) -> (r: Result<Self::Ok, Self::Error>)
+            ensures // the empty string is not a name: refused
+            r is Err,
+        {
+        Err(SeError::Unsupported(
+            errmsg_(),
+        ))
+    }
+//@end
+//@extract key::QNameSerializer::serialize_unit_struct | src/se/key.rs :: impl<W: Write> Serializer for QNameSerializer<W> :: fn serialize_unit_struct | serves=C13 features=serialize n15=1
+    /// Because unit struct can be represented only by empty string which is not
+    /// a valid XML name, serialization of unit struct returns `Err(Unsupported)`
+    fn serialize_unit_struct(self, name: &'static str) -> (r: Result<Self::Ok, Self::Error>)
+            ensures r is Err,
+        {
+        Err(SeError::Unsupported(
+            errmsg_(),
+        ))
+    }
+//@end
+//@extract key::QNameSerializer::serialize_seq | src/se/key.rs :: impl<W: Write> Serializer for QNameSerializer<W> :: fn serialize_seq | serves=C13 features=serialize n15=1
+    fn serialize_seq(self, _len: Option<usize>) -> (r: Result<Self::SerializeSeq, Self::Error>)
+            ensures r is Err,
+        {
+        Err(SeError::Unsupported(
+            errmsg_(),
+        ))
+    }
+//@end
 }
 //@extract text::TextSerializer | src/se/text.rs :: struct TextSerializer | serves=C13 features=serialize
  pub struct TextSerializer<W: Write>(pub SimpleTypeSerializer<W>);
@@ -768,6 +979,13 @@ impl<'w, W: Write> Serializer for TextSerializer<&'w mut W> {
             self.0.serialize_i64(value)
         }
 //@end
+//@extract text::TextSerializer::serialize_i128 | src/se/text.rs :: impl<W: Write> Serializer for TextSerializer<W> :: invoke serde_if_integer128 :: invoke write_primitive :: fn serialize_i128 | serves=C13 features=serialize
+        fn serialize_i128(self, value: i128) -> (r: Result<Self::Ok, Self::Error>)
+            ensures r matches Ok(w) ==> (*w).out() == (*old(self.0.writer)).out() + disp(value) && *final(w) == *final(self.0.writer),
+        {
+            self.0.serialize_i128(value)
+        }
+//@end
 //@extract text::TextSerializer::serialize_u8 | src/se/text.rs :: impl<W: Write> Serializer for TextSerializer<W> :: invoke write_primitive :: fn serialize_u8 | serves=C13 features=serialize
         fn serialize_u8(self, value: u8) -> (r: Result<Self::Ok, Self::Error>)
             ensures r matches Ok(w) ==> (*w).out() == (*old(self.0.writer)).out() + disp(value) && *final(w) == *final(self.0.writer),
@@ -794,6 +1012,13 @@ impl<'w, W: Write> Serializer for TextSerializer<&'w mut W> {
             ensures r matches Ok(w) ==> (*w).out() == (*old(self.0.writer)).out() + disp(value) && *final(w) == *final(self.0.writer),
         {
             self.0.serialize_u64(value)
+        }
+//@end
+//@extract text::TextSerializer::serialize_u128 | src/se/text.rs :: impl<W: Write> Serializer for TextSerializer<W> :: invoke serde_if_integer128 :: invoke write_primitive :: fn serialize_u128 | serves=C13 features=serialize
+        fn serialize_u128(self, value: u128) -> (r: Result<Self::Ok, Self::Error>)
+            ensures r matches Ok(w) ==> (*w).out() == (*old(self.0.writer)).out() + disp(value) && *final(w) == *final(self.0.writer),
+        {
+            self.0.serialize_u128(value)
         }
 //@end
 //@extract text::TextSerializer::serialize_f32 | src/se/text.rs :: impl<W: Write> Serializer for TextSerializer<W> :: invoke write_primitive :: fn serialize_f32 | serves=C13 features=serialize
@@ -1002,6 +1227,16 @@ impl<'w, W: Write> Serializer for SimpleTypeSerializer<&'w mut W> {
             Ok(self__.writer)
         }
 //@end
+//@extract simple_type::SimpleTypeSerializer::serialize_i128 | src/se/simple_type.rs :: impl<W: Write> Serializer for SimpleTypeSerializer<W> :: invoke write_primitive :: invoke serde_if_integer128 :: invoke write_primitive :: fn serialize_i128 | serves=C13 features=serialize macro_files=src/se/mod.rs
+//@rewrite &value.to_string() ==> disp_(value)
+        fn serialize_i128(self, value: i128) -> (r: Result<Self::Ok, Self::Error>)
+            ensures // a number is its display text, which needs no escaping in any position (A-display)
+                r matches Ok(w) ==> (*w).out() == (*old(self.writer)).out() + disp(value) && *final(w) == *final(self.writer),
+        { let mut self__ = self;
+            self__.write_str(disp_(value))?;
+            Ok(self__.writer)
+        }
+//@end
 //@extract simple_type::SimpleTypeSerializer::serialize_u8 | src/se/simple_type.rs :: impl<W: Write> Serializer for SimpleTypeSerializer<W> :: invoke write_primitive :: invoke write_primitive :: fn serialize_u8 | serves=C13 features=serialize macro_files=src/se/mod.rs
 //@rewrite &value.to_string() ==> disp_(value)
         fn serialize_u8(self, value: u8) -> (r: Result<Self::Ok, Self::Error>)
@@ -1035,6 +1270,16 @@ impl<'w, W: Write> Serializer for SimpleTypeSerializer<&'w mut W> {
 //@extract simple_type::SimpleTypeSerializer::serialize_u64 | src/se/simple_type.rs :: impl<W: Write> Serializer for SimpleTypeSerializer<W> :: invoke write_primitive :: invoke write_primitive :: fn serialize_u64 | serves=C13 features=serialize macro_files=src/se/mod.rs
 //@rewrite &value.to_string() ==> disp_(value)
         fn serialize_u64(self, value: u64) -> (r: Result<Self::Ok, Self::Error>)
+            ensures // a number is its display text, which needs no escaping in any position (A-display)
+                r matches Ok(w) ==> (*w).out() == (*old(self.writer)).out() + disp(value) && *final(w) == *final(self.writer),
+        { let mut self__ = self;
+            self__.write_str(disp_(value))?;
+            Ok(self__.writer)
+        }
+//@end
+//@extract simple_type::SimpleTypeSerializer::serialize_u128 | src/se/simple_type.rs :: impl<W: Write> Serializer for SimpleTypeSerializer<W> :: invoke write_primitive :: invoke serde_if_integer128 :: invoke write_primitive :: fn serialize_u128 | serves=C13 features=serialize macro_files=src/se/mod.rs
+//@rewrite &value.to_string() ==> disp_(value)
+        fn serialize_u128(self, value: u128) -> (r: Result<Self::Ok, Self::Error>)
             ensures // a number is its display text, which needs no escaping in any position (A-display)
                 r matches Ok(w) ==> (*w).out() == (*old(self.writer)).out() + disp(value) && *final(w) == *final(self.writer),
         { let mut self__ = self;
@@ -1185,6 +1430,18 @@ impl<'w, 'i, W: Write> Serializer for ContentSerializer<'w, 'i, W> {
             Ok(WriteResult::Text)
         }
 //@end
+//@extract content::ContentSerializer::serialize_i128 | src/se/content.rs :: impl<'w, 'i, W: Write> Serializer for ContentSerializer<'w, 'i, W> :: invoke serde_if_integer128 :: invoke write_primitive :: fn serialize_i128 | serves=C13,C19 features=serialize
+        fn serialize_i128(self, value: i128) -> (r: Result<Self::Ok, Self::Error>)
+            ensures // C19: a number / boolean is classified as text (the code says Text -- surrounding whitespace does not count, an indent may
+                // follow; SensitiveText would obey C19 as well, so both are admitted: never as markup or as nothing);
+                // C13: only its display text reaches the output; refused where primitives are not allowed
+                r is Ok ==> self.allow_primitive,
+                r matches Ok(x) ==> (x is Text || x is SensitiveText) && (*final(self.writer)).out() == (*old(self.writer)).out() + disp(value),
+        {
+            self.into_simple_type_serializer()?.serialize_i128(value)?;
+            Ok(WriteResult::Text)
+        }
+//@end
 //@extract content::ContentSerializer::serialize_u8 | src/se/content.rs :: impl<'w, 'i, W: Write> Serializer for ContentSerializer<'w, 'i, W> :: invoke write_primitive :: fn serialize_u8 | serves=C13,C19 features=serialize
         fn serialize_u8(self, value: u8) -> (r: Result<Self::Ok, Self::Error>)
             ensures // C19: a number / boolean is classified as text (the code says Text -- surrounding whitespace does not count, an indent may
@@ -1230,6 +1487,18 @@ impl<'w, 'i, W: Write> Serializer for ContentSerializer<'w, 'i, W> {
                 r matches Ok(x) ==> (x is Text || x is SensitiveText) && (*final(self.writer)).out() == (*old(self.writer)).out() + disp(value),
         {
             self.into_simple_type_serializer()?.serialize_u64(value)?;
+            Ok(WriteResult::Text)
+        }
+//@end
+//@extract content::ContentSerializer::serialize_u128 | src/se/content.rs :: impl<'w, 'i, W: Write> Serializer for ContentSerializer<'w, 'i, W> :: invoke serde_if_integer128 :: invoke write_primitive :: fn serialize_u128 | serves=C13,C19 features=serialize
+        fn serialize_u128(self, value: u128) -> (r: Result<Self::Ok, Self::Error>)
+            ensures // C19: a number / boolean is classified as text (the code says Text -- surrounding whitespace does not count, an indent may
+                // follow; SensitiveText would obey C19 as well, so both are admitted: never as markup or as nothing);
+                // C13: only its display text reaches the output; refused where primitives are not allowed
+                r is Ok ==> self.allow_primitive,
+                r matches Ok(x) ==> (x is Text || x is SensitiveText) && (*final(self.writer)).out() == (*old(self.writer)).out() + disp(value),
+        {
+            self.into_simple_type_serializer()?.serialize_u128(value)?;
             Ok(WriteResult::Text)
         }
 //@end
@@ -1454,6 +1723,17 @@ impl<'w, 'k, W: Write> Serializer for ElementSerializer<'w, 'k, W> {
                 { ser.serialize_i64(value) })
         }
 //@end
+//@extract element::ElementSerializer::serialize_i128 | src/se/element.rs :: impl<'w, 'k, W: Write> Serializer for ElementSerializer<'w, 'k, W> :: invoke serde_if_integer128 :: invoke write_primitive :: fn serialize_i128 | serves=C13,C19 features=serialize
+        fn serialize_i128(self, value: i128) -> (r: Result<Self::Ok, Self::Error>)
+            // C13: `<key>` + the text of the value + `</key>` with the SAME validated name; C19: markup (after the indent, if due)
+            ensures r matches Ok(x) ==> x is Element && (*final(self.ser.writer)).out() == (*old(self.ser.writer)).out() + self.ser.pre()
+                + tag_open(self.key.0.spec_bytes()) + disp(value) + tag_close(self.key.0.spec_bytes()),
+        {
+            self.ser.write_wrapped(self.key, |ser: SimpleTypeSerializer<&mut W>| -> (w: Result<&mut W, SeError>)
+                ensures w matches Ok(w2) ==> (*w2).out() == (*old(ser.writer)).out() + disp(value) && *final(w2) == *final(ser.writer)
+                { ser.serialize_i128(value) })
+        }
+//@end
 //@extract element::ElementSerializer::serialize_u8 | src/se/element.rs :: impl<'w, 'k, W: Write> Serializer for ElementSerializer<'w, 'k, W> :: invoke write_primitive :: fn serialize_u8 | serves=C13,C19 features=serialize
         fn serialize_u8(self, value: u8) -> (r: Result<Self::Ok, Self::Error>)
             // C13: `<key>` + the text of the value + `</key>` with the SAME validated name; C19: markup (after the indent, if due)
@@ -1496,6 +1776,17 @@ impl<'w, 'k, W: Write> Serializer for ElementSerializer<'w, 'k, W> {
             self.ser.write_wrapped(self.key, |ser: SimpleTypeSerializer<&mut W>| -> (w: Result<&mut W, SeError>)
                 ensures w matches Ok(w2) ==> (*w2).out() == (*old(ser.writer)).out() + disp(value) && *final(w2) == *final(ser.writer)
                 { ser.serialize_u64(value) })
+        }
+//@end
+//@extract element::ElementSerializer::serialize_u128 | src/se/element.rs :: impl<'w, 'k, W: Write> Serializer for ElementSerializer<'w, 'k, W> :: invoke serde_if_integer128 :: invoke write_primitive :: fn serialize_u128 | serves=C13,C19 features=serialize
+        fn serialize_u128(self, value: u128) -> (r: Result<Self::Ok, Self::Error>)
+            // C13: `<key>` + the text of the value + `</key>` with the SAME validated name; C19: markup (after the indent, if due)
+            ensures r matches Ok(x) ==> x is Element && (*final(self.ser.writer)).out() == (*old(self.ser.writer)).out() + self.ser.pre()
+                + tag_open(self.key.0.spec_bytes()) + disp(value) + tag_close(self.key.0.spec_bytes()),
+        {
+            self.ser.write_wrapped(self.key, |ser: SimpleTypeSerializer<&mut W>| -> (w: Result<&mut W, SeError>)
+                ensures w matches Ok(w2) ==> (*w2).out() == (*old(ser.writer)).out() + disp(value) && *final(w2) == *final(ser.writer)
+                { ser.serialize_u128(value) })
         }
 //@end
 //@extract element::ElementSerializer::serialize_f32 | src/se/element.rs :: impl<'w, 'k, W: Write> Serializer for ElementSerializer<'w, 'k, W> :: invoke write_primitive :: fn serialize_f32 | serves=C13,C19 features=serialize
@@ -2093,6 +2384,16 @@ impl<'a, W: Write> Serializer for AtomicSerializer<&'a mut W> {
             Ok(true)
         }
 //@end
+//@extract simple_type::AtomicSerializer::serialize_i128 | src/se/simple_type.rs :: impl<W: Write> Serializer for AtomicSerializer<W> :: invoke serde_if_integer128 :: invoke write_atomic :: fn serialize_i128 | serves=C13 features=serialize
+//@rewrite &value.to_string() ==> disp_(value)
+        fn serialize_i128(self, value: i128) -> (r: Result<Self::Ok, Self::Error>)
+            ensures // an item that is a number: the delimiter (between items only), then its display text; reported as written
+                r matches Ok(b) ==> b && (*final(self.writer)).out() == (*old(self.writer)).out() + (if self.write_delimiter { seq![0x20u8] } else { BSeq::empty() }) + disp(value),
+        { let mut self__ = self;
+            self__.write_str(disp_(value))?;
+            Ok(true)
+        }
+//@end
 //@extract simple_type::AtomicSerializer::serialize_u8 | src/se/simple_type.rs :: impl<W: Write> Serializer for AtomicSerializer<W> :: invoke write_atomic :: fn serialize_u8 | serves=C13 features=serialize
 //@rewrite &value.to_string() ==> disp_(value)
         fn serialize_u8(self, value: u8) -> (r: Result<Self::Ok, Self::Error>)
@@ -2126,6 +2427,16 @@ impl<'a, W: Write> Serializer for AtomicSerializer<&'a mut W> {
 //@extract simple_type::AtomicSerializer::serialize_u64 | src/se/simple_type.rs :: impl<W: Write> Serializer for AtomicSerializer<W> :: invoke write_atomic :: fn serialize_u64 | serves=C13 features=serialize
 //@rewrite &value.to_string() ==> disp_(value)
         fn serialize_u64(self, value: u64) -> (r: Result<Self::Ok, Self::Error>)
+            ensures // an item that is a number: the delimiter (between items only), then its display text; reported as written
+                r matches Ok(b) ==> b && (*final(self.writer)).out() == (*old(self.writer)).out() + (if self.write_delimiter { seq![0x20u8] } else { BSeq::empty() }) + disp(value),
+        { let mut self__ = self;
+            self__.write_str(disp_(value))?;
+            Ok(true)
+        }
+//@end
+//@extract simple_type::AtomicSerializer::serialize_u128 | src/se/simple_type.rs :: impl<W: Write> Serializer for AtomicSerializer<W> :: invoke serde_if_integer128 :: invoke write_atomic :: fn serialize_u128 | serves=C13 features=serialize
+//@rewrite &value.to_string() ==> disp_(value)
+        fn serialize_u128(self, value: u128) -> (r: Result<Self::Ok, Self::Error>)
             ensures // an item that is a number: the delimiter (between items only), then its display text; reported as written
                 r matches Ok(b) ==> b && (*final(self.writer)).out() == (*old(self.writer)).out() + (if self.write_delimiter { seq![0x20u8] } else { BSeq::empty() }) + disp(value),
         { let mut self__ = self;
